@@ -61,9 +61,15 @@ def concrete_plan(p, k):
     if p["early"]:
         plan["connect_before_listen"] = True
         plan["listen_delay_ms"] = 30
+    # limits of the "nothing pending / silent peer" probes: zero, sub-millisecond, mixed units (nanoseconds)
+    NS = [0, 1, 999999, 1000000, 20000000, 40000000]
     if p["fam"] == "tcp":
-        # phase 0: a timed read on each freshly constructed stream while the peer is silent - it has to RETURN
-        plan["silent_us"] = [20000, 1000, 50000][k % 3]
+        # phase 0: timed reads on each freshly constructed stream while the peer is silent - they have to RETURN
+        plan["silent_ns"] = [NS[k % 6], NS[(k + 3) % 6]]
+        if k % 4 == 1:
+            plan["connect_probe_ns"] = [0, NS[(k // 4) % 6]]     # connect_with_timeout, nobody answers
+    if not p["early"] and k % 2 == 0:
+        plan["accept_probe_ns"] = [0, NS[(k // 2) % 6]]          # accept_with_timeout, nobody connects
     if p["tmo"] >= 0 and p["fam"] == "tcp":
         plan["cs"]["read_to_us"] = p["tmo"]
         plan["sc"]["read_to_us"] = p["tmo"]
@@ -94,8 +100,19 @@ def gen_plans(chk, stride, big):
             pl["connect_delay_ms"] = d // 1000 + 150
             pl["interrupts"] = fracs
             if fam == "tcp":
-                pl["silent_us"] = d
+                pl["silent_ns"] = [d * 1000]
+            pl.pop("accept_probe_ns", None)
+            pl.pop("connect_probe_ns", None)
             plans.append(pl)
+        # one second and one nanosecond (mixed sec/nsec conversion), once per family
+        base = {"fam": fam, "lcs": 2, "lsc": 2, "w": 1, "r": 1, "delay": "none", "acc": "plain", "con": "plain",
+                "early": False, "closer": "c", "tmo": -1, "limit_ns": 1000000001}
+        pl = concrete_plan(base, 1)
+        pl["accept_probe_ns"] = [1000000001]
+        pl.pop("connect_probe_ns", None)
+        if fam == "tcp":
+            pl["silent_ns"] = [1000000001]
+        plans.append(pl)
     return plans
 
 
@@ -499,6 +516,15 @@ def run(tier):
         if k in acc and (waited or plans[k]["cs"]["n"] >= 4096):
             nontrivial.add(("conn", k))
     chk.evaluations += nev
+    probes = {}
+    for k, cc in enumerate(conns):
+        if cc:
+            for side in ("c", "s"):
+                for e in cc[side]:
+                    if e.get("nothing_pending") or e.get("nothing_answers") or e.get("silent_peer"):
+                        key = "%s/%s d_ns=%s -> %s" % (plans[k]["fam"], "connect_to" if e.get("nothing_answers") else e["op"], e.get("d_ns"), e["res"])
+                        probes[key] = probes.get(key, 0) + 1
+    chk.extra["timed_calls_with_nothing_pending"] = dict(sorted(probes.items()))
     chk.extra["timed_waits_interrupted_twice_or_more"] = [
         {"fam": plans[k]["fam"], "op": e["op"], "signals": e["signals"], "limit_us": e.get("d"), "elapsed_us": e["t1"] - e["t0"], "res": e["res"]}
         for k, c in enumerate(conns) if c for side in ("c", "s") for e in c[side] if e.get("signals", 0) >= 2]
